@@ -1,6 +1,7 @@
 package redblacktree
 
 import (
+	"strings"
 	"encoding/json"
 	"github.com/emirpasic/gods/v2/containers"
 	vl "github.com/emirpasic/gods/v2/zzvlib"
@@ -419,4 +420,13 @@ func VHJSONRound() {
 func VHJSONLoad() {
 	c := VGSmall()
 	containers.VJSONLoad(vJSON(c))
+}
+
+// VHString: String() begins with the container's name and is read-only (C15, C18).
+func VHString() {
+	c := VGSmall()
+	v.BeginOp(true, c)
+	s := c.String()
+	v.EndOp()
+	v.Assert(strings.HasPrefix(s, "RedBlackTree"), "C15:string-begins-with-container-name")
 }
